@@ -11,6 +11,7 @@ import (
 	"github.com/trustbloc/sidetree-go/pkg/versions/1_0/model"
 	"math/rand"
 	"strings"
+	"sync"
 
 	"github.com/trustbloc/sidetree-go/pkg/api/protocol"
 	"github.com/trustbloc/sidetree-go/pkg/versions/1_0/operationparser"
@@ -25,7 +26,7 @@ type reqSpec struct {
 	updCSameAsRecC, updCIsCurrentKey, recCIsCurrentKey  bool
 	hdr                                                 M
 	hdrRaw                                              string // protected header text as written (signature not renewed; the parser does not verify it)
-	nonceLen                                            int // 0 = none
+	nonceLen                                            int    // 0 = none
 	patches                                             A
 	omitDelta, emptyPatches                             bool
 	from, until                                         int64
@@ -364,6 +365,38 @@ func genParseCases(r *rand.Rand) []parseCase {
 			c = cloneCfg(base)
 			c.Patches = []string{"add-services"}
 			add("delta-only-this-patch-enabled", c, b0, typ, true)
+			// every patch action in turn: enabled with all, refused when it alone is missing from the
+			// enabled list, accepted when it alone is on it - for every operation type that carries a delta
+			for _, pa := range []M{
+				{"action": "replace", "document": M{"publicKeys": A{docKey("k1", genKey(r, "P-256"), "authentication")}, "services": A{docService("s1", "T", "https://example.com/a")}}},
+				{"action": "ietf-json-patch", "patches": A{M{"op": "add", "path": "/note", "value": 1.0}}},
+				{"action": "add-public-keys", "publicKeys": A{docKey("k1", genKey(r, "P-256"), "authentication")}},
+				{"action": "remove-public-keys", "ids": A{"k1"}},
+				{"action": "add-services", "services": A{docService("s1", "T", "https://example.com/a")}},
+				{"action": "remove-services", "ids": A{"s1"}},
+				{"action": "add-also-known-as", "uris": A{"https://aka.example/1"}},
+				{"action": "remove-also-known-as", "uris": A{"https://aka.example/1"}},
+			} {
+				act := pa["action"].(string)
+				sp := defaultSpec(typ, r)
+				sp.patches = A{pa}
+				bb := buildReq(sp, r, base.MultihashAlgorithms)
+				add("delta-action-enabled:"+act, cloneCfg(base), bb, typ, true)
+				c := cloneCfg(base)
+				c.Patches = without(c.Patches, act)
+				add("delta-action-not-enabled:"+act, c, bb, typ, false)
+				c = cloneCfg(base)
+				c.Patches = []string{act}
+				add("delta-action-alone-enabled:"+act, c, bb, typ, true)
+				// behind an enabled one
+				sp = defaultSpec(typ, r)
+				sp.patches = A{M{"action": "add-also-known-as", "uris": A{"https://aka.example/0"}}, pa}
+				if act != "add-also-known-as" {
+					c = cloneCfg(base)
+					c.Patches = without(c.Patches, act)
+					add("delta-action-not-enabled-behind-an-enabled-one:"+act, c, buildReq(sp, r, base.MultihashAlgorithms), typ, false)
+				}
+			}
 			good := M{"action": "add-services", "services": A{docService("s1", "T", "https://example.com/a")}}
 			bad := M{"action": "add-services", "services": A{docService("bad id!", "T", "https://example.com/a")}}
 			otherGood := M{"action": "add-also-known-as", "uris": A{"https://aka.example/1"}}
@@ -712,8 +745,9 @@ func genC03(seed int64, tier string) []caseOut {
 			algs = []uint{18, 22}
 		}
 		cfg := baseProtocol(r)
-		cfg.MultihashAlgorithms = algs
+		cfg.MultihashAlgorithms = append([]uint{}, algs...)
 		cfg.MaxOperationHashLength = 200
+		protoCoq := coqProtocol(cfg) // as configured, before any parser has seen it
 		sp := defaultSpec("create", r)
 		code := uint64(algs[r.Intn(len(algs))])
 		if unsupported {
@@ -801,6 +835,22 @@ func genC03(seed int64, tier string) []caseOut {
 		if f, ok := sp.origin.(float64); ok && f == 0 {
 			for _, z := range []string{"-0", "-0.0", "0.0", "0e5", "0E-3", "-0.00", "-0e0"} {
 				addVariant("respelled-zero:"+z, bytes.Replace(b.bytes, []byte(`"anchorOrigin":0`), []byte(`"anchorOrigin":`+z), 1), true)
+			}
+		}
+		// a request the parser refuses for a commitment under an algorithm that is not configured, then
+		// the first request once more: what was refused in between leaves the answer as it was
+		if !unsupported {
+			junk := make([]byte, 32)
+			rngReader{r}.Read(junk)
+			for _, field := range []string{"suffixData.recoveryCommitment", "delta.updateCommitment", "suffixData.deltaHash"} {
+				req := M{}
+				json.Unmarshal(b.bytes, &req)
+				parts := strings.Split(field, ".")
+				req[parts[0]].(map[string]interface{})[parts[1]] = b64(multihash(22, junk))
+				mustRefuse = true
+				addVariant("refused:"+field+"-under-unconfigured-algorithm", jcs(req), false)
+				mustRefuse = false
+				addVariant("canonical-after-a-refused-request", b.bytes, true)
 			}
 		}
 		// single-field modifications of suffix data and of the delta
@@ -906,11 +956,81 @@ func genC03(seed int64, tier string) []caseOut {
 		}
 		h := sha256.Sum256(b.bytes)
 		out = append(out, caseOut{
-			Coq:    fmt.Sprintf("(mk_c03 %s %s %s %s %s %s %s)", urlOracle(map[string]interface{}(b.request)), coqProtocol(cfg), cStr(b.suffix), cList(variants), cList(pairs), cStr(":"+b.suffix+":"+state), cList(lfs)),
+			Coq:    fmt.Sprintf("(mk_c03 %s %s %s %s %s %s %s)", urlOracle(map[string]interface{}(b.request)), protoCoq, cStr(b.suffix), cList(variants), cList(pairs), cStr(":"+b.suffix+":"+state), cList(lfs)),
 			Rec:    map[string]interface{}{"protocol_algorithms": algs, "expected_suffix": b.suffix, "variants": recs, "order_pairs": pairRecs, "long_form": lfRecs},
 			Label:  fmt.Sprintf("create,algs-%v,code-%d", algs, code),
 			NonTri: fmt.Sprintf("%x", h[:8]),
 		})
+	}
+	// one parser serving several goroutines at once, each request with a DID computed beforehand:
+	// every answer is the one the request gets on its own (the first differing answer is the one recorded)
+	{
+		fr := rand.New(rand.NewSource(31))
+		cfg := baseProtocol(fr)
+		cfg.MultihashAlgorithms = []uint{18}
+		cfg.MaxOperationHashLength = 200
+		protoCoq := coqProtocol(cfg)
+		p := operationparser.New(cfg)
+		const nreq, workers, rounds = 24, 8, 12
+		reqs := make([]builtReq, nreq)
+		for k := range reqs {
+			sp := defaultSpec("create", fr)
+			sp.deltaHashCode, sp.updCCode, sp.recCCode = 18, 18, 18
+			sp.origin = fmt.Sprintf("origin-%d.example", k)
+			reqs[k] = buildReq(sp, fr, cfg.MultihashAlgorithms)
+		}
+		type ans struct {
+			sfx, id string
+			ok      bool
+		}
+		bad := make([]*ans, nreq)
+		var mu sync.Mutex
+		var wg sync.WaitGroup
+		for w := 0; w < workers; w++ {
+			wg.Add(1)
+			go func(w int) {
+				defer wg.Done()
+				for rd := 0; rd < rounds; rd++ {
+					for k := range reqs {
+						idx := (k + 3*w) % nreq
+						a := ans{}
+						func() {
+							defer func() { recover() }()
+							if op, err := p.Parse("did:ns", reqs[idx].bytes); err == nil {
+								a = ans{op.UniqueSuffix, op.ID, true}
+							}
+						}()
+						if !a.ok || a.sfx != reqs[idx].suffix || a.id != "did:ns:"+reqs[idx].suffix {
+							mu.Lock()
+							if bad[idx] == nil {
+								bad[idx] = &a
+							}
+							mu.Unlock()
+						}
+					}
+				}
+			}(w)
+		}
+		wg.Wait()
+		for k, b := range reqs {
+			impl := fmt.Sprintf("(Some (%s, %s))", cStr(b.suffix), cStr("did:ns:"+b.suffix))
+			rec := map[string]interface{}{"request": string(b.bytes), "expected_suffix": b.suffix, "every_concurrent_answer_as_expected": bad[k] == nil}
+			if bad[k] != nil {
+				impl = "None"
+				if bad[k].ok {
+					impl = fmt.Sprintf("(Some (%s, %s))", cStr(bad[k].sfx), cStr(bad[k].id))
+				}
+				rec["differing_answer"] = map[string]interface{}{"accepted": bad[k].ok, "suffix": bad[k].sfx, "id": bad[k].id}
+			}
+			h := sha256.Sum256(append([]byte("concurrent"), b.bytes...))
+			out = append(out, caseOut{
+				Coq: fmt.Sprintf("(mk_c03 %s %s %s %s [] %s [])", urlOracle(map[string]interface{}(b.request)), protoCoq, cStr(b.suffix),
+					cList([]string{fmt.Sprintf("(mk_variant %s %s true false)", cStr(string(b.bytes)), impl)}), cStr(":"+b.suffix+":"+b64(b.bytes))),
+				Rec:    rec,
+				Label:  "create,parsed-by-eight-goroutines-at-once",
+				NonTri: fmt.Sprintf("%x", h[:8]),
+			})
+		}
 	}
 	return out
 }
